@@ -83,6 +83,31 @@ def rule_method(facts, rep):
                 excluded.add(names.get(f[2][2], str(f[2][2])))
         missing = sorted(unhandled - excluded)
         good = not missing
+        if not good:
+            # the rejections may sit in a helper whose verdict reaches this point through `?` (no dominating edge on the method then):
+            # decide it on the paths -- every path that ends in Ok(Ok(_)) has excluded each of those variants
+            from engine.paths import paths as _paths, outcome as _outcome, PathExplosion
+            try:
+                inv = {v_: k_ for k_, v_ in names.items()}
+                still = set()
+                nokok = 0
+                for p_ in _paths(mcr, max_paths=20000):
+                    o_ = _outcome(p_)
+                    if not (o_[0] == "Ok" and o_[1] is not None and any(x_[0] == "agg" and x_[1] == "adt:Ok" for x_ in alts(o_[1]))):
+                        continue
+                    nokok += 1
+                    ex_ = set()
+                    for a_, v_ in p_["decisions"]:
+                        if a_ == "discr(compression_method)":
+                            if isinstance(v_, tuple) and v_[0] == "not-in":
+                                ex_ |= {names.get(x_, str(x_)) for x_ in v_[1]}
+                            elif isinstance(v_, int):
+                                ex_ |= {n_ for n_ in unhandled if inv.get(n_) != v_}
+                    still |= (unhandled - ex_)
+                if nokok and not still:
+                    good, missing = True, []
+            except PathExplosion:
+                pass
         okall &= good
         rep.check(good, rule, "make_crypto_reader:rejects:%s" % ",".join(sorted(unhandled)), where(mcr, s["span"]),
                   "success return of the open path is dominated by the rejection of every method the decoder constructor "
@@ -532,6 +557,24 @@ def rule_alloc(facts, rep, reach, summaries):
     return okall
 
 
+def _stream_observed(y):
+    """is `y` a quantity *observed* on the stream (a position returned by seek/stream_position, the position at which the end record
+    was found, a length) -- as opposed to a value *declared* inside the archive (any parsed field, however it was post-processed)?"""
+    while y[0] in ("cast", "ok") or (y[0] == "bin" and y[1] in ("Sub", "Add") and y[3][0] in ("const", "named")):
+        y = y[1] if y[0] in ("cast", "ok") else y[2]
+    if y[0] == "call" and re.search(r"stream_position$|Seek::seek$|::len$|metadata", y[1]):
+        return True
+    # (footer, position) = CentralDirectoryEnd::find_and_parse(reader)?: the second component is where the record was found
+    if y[0] == "field" and y[2] == "1":
+        b = y[1]
+        while b[0] in ("ok", "cast"):
+            b = b[1]
+        return b[0] == "call" and re.search(r"CentralDirectoryEnd::find_and_parse$", b[1]) is not None
+    if y[0] == "arg" and re.search(r"pos$|_len$|length$", str(y[2])):
+        return True
+    return False
+
+
 def _guarded_by_stream(f, ex, op, alt_expr, use_bb, summaries):
     """is the value `alt_expr` flowing into the allocation through a definition that is dominated by a comparison
     `alt_expr <= X` / not(alt_expr > X) with X derived from the stream length/position?"""
@@ -553,9 +596,9 @@ def _guarded_by_stream(f, ex, op, alt_expr, use_bb, summaries):
             val = norm(ex.rvalue(node["rv"], (dbb, dsi)))
             if val == alt_expr or alt_expr in alts(val):
                 for (opx, x, y) in [z for z in dominating_facts(f, ex, dbb) if z[0] != "truth"]:
-                    if x == alt_expr and opx in ("Le", "Lt") and any(c[0] == "call" and STREAM_BOUND.search(c[1]) for c in walk(y)):
+                    if x == alt_expr and opx in ("Le", "Lt") and _stream_observed(y):
                         return True
-                    if y == alt_expr and opx in ("Ge", "Gt") and any(c[0] == "call" and STREAM_BOUND.search(c[1]) for c in walk(x)):
+                    if y == alt_expr and opx in ("Ge", "Gt") and _stream_observed(x):
                         return True
             # follow plain copies
             rv = node["rv"]
